@@ -115,20 +115,20 @@ func (s *JavaAPIListener) EnterAnnotation(ctx *parser.AnnotationContext) {
 		if hasEnterClass {
 			addApiMethod(annotationName)
 		}
-
-		return
 	}
 
 	if ctx.ElementValuePairs() != nil {
 		allValuePair := ctx.ElementValuePairs().(*parser.ElementValuePairsContext).AllElementValuePair()
 		for _, valuePair := range allValuePair {
 			pair := valuePair.(*parser.ElementValuePairContext)
-			if pair.Identifier().GetText() == "method" {
+			if pair.Identifier().GetText() == "method" && annotationName == "RequestMapping" {
 				addApiMethod(pair.ElementValue().GetText())
 			}
 			if pair.Identifier().GetText() == "value" {
 				text := pair.ElementValue().GetText()
-				currentRestAPI.Uri = baseApiUrl + text[1:len(text)-1]
+				if len(text) >= 2 {
+					currentRestAPI.Uri = baseApiUrl + text[1:len(text)-1]
+				}
 			}
 		}
 	}
@@ -143,12 +143,16 @@ func buildBaseApiUrlString(annotationName string, ctx *parser.AnnotationContext)
 				pair := valuePair.(*parser.ElementValuePairContext)
 				if pair.Identifier().GetText() == "value" {
 					text := pair.ElementValue().GetText()
-					baseApiUrl = text[1 : len(text)-1]
+					if len(text) >= 2 {
+						baseApiUrl = text[1 : len(text)-1]
+					}
 				}
 			}
 		} else if ctx.ElementValue() != nil {
 			text := ctx.ElementValue().GetText()
-			baseApiUrl = text[1 : len(text)-1]
+			if len(text) >= 2 {
+				baseApiUrl = text[1 : len(text)-1]
+			}
 		} else {
 			baseApiUrl = "/"
 		}
